@@ -354,6 +354,12 @@ Definition admits (T : tarball) (Q : opts) (w : world) : bool :=
   t_members_ok T && nodupb (map a_path (t_arts T)) && negb (match t_arts T with [] => true | _ => false end)
   && t_sig_ok T && t_digest_ok T && expect_ok Q w && prev_ok T w && (quiescent w || o_force Q).
 
+(* Runner.Plan, the dry run: verifySignature, ExtractTarball (members + Manifest.Validate), CrossCheckArtifacts; no
+   predecessor / journal check.  The world is not changed whatever the verdict. *)
+Definition plan_ok (T : tarball) : bool :=
+  t_sig_ok T && t_members_ok T && nodupb (map a_path (t_arts T)) &&
+  negb (match t_arts T with [] => true | _ => false end) && t_digest_ok T.
+
 Definition base_of (w : world) (arts : list artifact) : list (path * option file) :=
   map (fun a => (a_path a, fs w (a_path a))) arts.
 
